@@ -43,3 +43,11 @@ Theorem C19_average_reward : forall (S PS O : Type) (E : env S Q O) (P : acpol P
   average_reward E P det k n m = qmean (map (fun i => rollout_scan E P det (ks k n i) m) (seq 0 n)).
 Proof. reflexivity. Qed.
 Print Assumptions C19_average_reward.
+
+(* log records reach the backend in iteration order with the cumulative number of environment steps:
+   the model of learn() that the check ties to real PPO runs emits, for iteration j = 1..iters, the step count j * N * T *)
+From Lerax Require Import C19Check C19LearnProofs.
+Theorem C19_log_records_in_order : forall (E : env (ws Z) Q (list Q)) (P : acpol Z Q (list Q)) gamma alpha N T iters k,
+  map (fun r => fst (fst r)) (learn_records E P gamma alpha N T iters k) = map (fun j => Z.of_nat (j * N * T)) (seq 1 iters).
+Proof. exact learn_records_steps. Qed.
+Print Assumptions C19_log_records_in_order.
